@@ -421,8 +421,14 @@ def run_scenario(ctx):
         first = {"algo_name": algo, "max_iter": t.randint(2, 5, "iter_1")}
         second = {"algo_name": algo, "max_iter": t.randint(3, 8, "iter_2")}
     else:
-        first = {"algo_name": "PYDOE_FULLFACT", "n_samples": t.randint(2, 5, "n_1")}
-        second = {"algo_name": "PYDOE_LHS", "n_samples": t.randint(2, 5, "n_2"), "random_state": 3}
+        if t.flag(0.5, "stochastic_doe_default_seed"):
+            # no explicit seed: the library draws its next default seed, which must carry over as a value
+            algo = t.pick(["OT_MONTE_CARLO", "PYDOE_LHS", "LHS"], "doe_algo")
+            first = {"algo_name": algo, "n_samples": t.randint(2, 5, "n_1")}
+            second = {"algo_name": algo, "n_samples": t.randint(2, 5, "n_2")}
+        else:
+            first = {"algo_name": "PYDOE_FULLFACT", "n_samples": t.randint(2, 5, "n_1")}
+            second = {"algo_name": "PYDOE_LHS", "n_samples": t.randint(2, 5, "n_2"), "random_state": 3}
     moment = t.weighted([1, 3], "moment")  # 0: fresh, 1: after a first execution
     transport = t.weighted([4, 2], "transport")
     label = f"scenario:{kind}/{formulation}"
@@ -446,6 +452,10 @@ def run_scenario(ctx):
     c.execute(**second)
     r1, r2 = sc.optimization_result, c.optimization_result
     ctx.event("res", canon(r1.x_opt), canon(r1.f_opt), len(p.database))
+    k1 = [tuple(x.wrapped_array.tolist()) for x in p.database.keys()]
+    k2 = [tuple(x.wrapped_array.tolist()) for x in pc.database.keys()]
+    if k1 != k2 and kind == "DOE":
+        ctx.violate("C20.behaves_like_original", label + " samples", f"after the same second execution original and restored scenario evaluated different points: {k1[-3:]} vs {k2[-3:]}")
     if len(p.database) != len(pc.database):
         ctx.violate("C20.behaves_like_original", label + " database", f"after the same second execution the databases hold {len(p.database)} and {len(pc.database)} entries")
     if not np.allclose(r1.x_opt, r2.x_opt, rtol=1e-6, atol=1e-8) or not np.allclose(r1.f_opt, r2.f_opt, rtol=1e-6, atol=1e-8) or r1.is_feasible != r2.is_feasible:
